@@ -227,6 +227,8 @@ func checkC14(w *World, r *Report) {
 	r.Rule("R14.2", "both ends closed after PipeData on every path (3 call sites)", 3)
 	r.Rule("R14.3", "stream accept loop terminates with the session (no error spin)", 1)
 	r.Rule("R14.4", "per-connection handlers close what they accepted", 2)
+	r.Rule("R14.5", "no orphaned physical session: the shared connection/session are replaced only under the mutex and only after a reuse test made under it", 4)
+	ruleSharedSession(w, r, "R14.5", w.Method("internal/client/upstream", "Upstreams", "Connect"), w.Method("internal/client/upstream", "Upstreams", "open"))
 	ruleR14_1(w, r)
 	ruleBothEndsClosed(w, r, "R14.2")
 	ruleAcceptErrorSpin(w, r, "R14.3")
